@@ -28,6 +28,8 @@ func checkC04(r *Report, p *Program) {
 	adoptAlwaysWrites(r, p, "R04.6")
 	listersListEverything(r, p, "R04.7")
 	claimKeepTable(r, p, "R04.8")
+	// a revision the controller creates matches the selector it claims revisions with (shared with C09)
+	revisionLabelsAgree(r, p, "R04.9")
 }
 
 // listersListEverything: the controllers list their caches unfiltered and leave the
